@@ -562,7 +562,10 @@ where
             trace!("Processing queued result.");
             if let Err(err) = self.process_queued_result(Some(response)).await
             {
+                // The response may have been written in part: anything
+                // written after it would no longer be framed correctly.
                 warn!("Error while processing queued result: {err}");
+                break;
             } else {
                 trace!("Result processed");
             }
